@@ -196,7 +196,12 @@ def hexs(b):
     return b.hex() if b else '-'
 
 def unhex(s):
-    return b'' if s == '-' else bytes.fromhex(s)
+    if s == '-':
+        return b''
+    try:
+        return bytes.fromhex(s)
+    except ValueError:       # a token such as PANIC where a value was expected: keep it visible, it can never equal a real value
+        return ('<' + s[:60] + '>').encode()
 
 def run_lines(binary, lines, timeout=1800, shards=16):
     """feed case lines to a line-oriented binary, in parallel shards; returns the output lines in order"""
@@ -225,6 +230,11 @@ def run_lines(binary, lines, timeout=1800, shards=16):
             raise RuntimeError('%s: %d lines in, %d lines out (crash?)' % (binary, len(chunks[i]), len(outs[i])))
         for j, o in enumerate(outs[i]):
             res[i + j * n] = o
+    # self-test of the check scripts (never set by a registered command): every k-th answer of the implementation becomes a
+    # bare PANIC token; every script must then report violations with inputs instead of failing to parse
+    k = int(os.environ.get('VERIF_SELFTEST_PANIC', '0') or 0)
+    if k and 'harness' in str(binary):
+        res = ['PANIC' if (i % k == k - 1 and not r.startswith('ERR')) else r for i, r in enumerate(res)]
     return res
 
 def model_bin():
